@@ -380,6 +380,13 @@ def run(ctx: Context, rep) -> None:
            f"context.shard_lists (carries {sorted(at_exit)})",
            message="every list the worker wrote is written with digests and "
            "reported back (no filter, slice or early exit)")
+    # writers touch only their own fresh files (who-may-create/delete), and
+    # the merge of their lists starts from the lists already on disk
+    from sa.rules.c06 import check_who
+    from sa.rules.c08 import check_load
+    check_who(ctx, rep, "C09.who")
+    check_load(ctx, rep, "C09.load")
+
 
 
 _P = "src/sedpack/io/dataset_writing.py"
